@@ -201,6 +201,25 @@ def check_pair(run, rule, struct, wfn, rfn, width_rule=None, label=None):
                 why = "array elements: writer serialises %s, reader parses %s" % ((el.ev.detail or {}).get("cls"), r["cls"])
         run.ob(rule, k + ":kind", comp, wfn, w["line"], ("compatible CBOR kinds (%s)" % why) if comp else
                "key %s: incompatible CBOR kinds, %s" % (nm, why))
+        # a list member takes exactly the decoded array: it is emptied before the elements are appended, or the decoded
+        # list replaces it unconditionally (a hand-over skipped for an empty array keeps whatever reset() installed)
+        lf = r.get("list_fill")
+        if lf is not None and r["kind"] == "ARRAY" and rm and rec is not None and \
+                any(fl["n"] == rm and "std::vector<" in (fl.get("t") or "") for fl in rec.get("fields", [])):
+            starts_empty, rf_, rl_ = reset_clears(facts, struct, rm, rfn)
+            if lf["mode"] == "in-place":
+                ok = lf["cleared"] or starts_empty is True
+                why_ = "elements are appended to %s after it was emptied" % rm if ok else \
+                    "elements are appended to %s, which is neither cleared in this case nor empty after reset(): the list read back is the " \
+                    "previous / default content followed by the decoded elements" % rm
+            else:
+                g_ = lf.get("transfer_guard")
+                ok = g_ == ("T",) or (g_ is not None and starts_empty is True)
+                why_ = "the decoded list replaces %s" % rm if ok else (
+                    "the decoded list is handed to %s only when %s: for the other case %s keeps the non-empty value reset() installed "
+                    "(an empty array in the file reads back as the defaults)" % (rm, show_f(g_), rm) if g_ is not None else
+                    "the decoded list never reaches %s" % rm)
+            run.ob(rule, k + ":list-replaced", ok, rfn, lf.get("line") or r["line"], why_)
         # reader-required => writer-unconditional
         if r["flag"] is not None and r["flag"] in mr.flags_required:
             ok = w["guard"] == ("T",) and wa.top_guard == ("T",)
